@@ -1,8 +1,154 @@
-//! Property check C11 (see /verif/DESIGN.md §4).
-use mc::{Level, Report};
+//! Property check C11 — the log rejects corruption instead of reinterpreting it.
+//!
+//! Logs are the C10 store-layer logs (built through the real `FilesystemWalStore`).  Every damage
+//! operator is applied at every position; every reader is run on every damaged image; the result
+//! must be a typed error / obstruction, or a success whose committed transactions are a prefix of
+//! the original list.
+mod damage;
+mod readers;
+
+use damage::{apply, enumerate_ops, M};
+use mc::{json, Level, Report, Value};
+use rayon::prelude::*;
+use readers::{eval_image, Stats};
+use walkit::store::{build_log, words_quick, BuiltLog, TxKind, KINDS};
+use walkit::fresh_dir;
+
+fn build(scratch: &std::path::Path, w: &[TxKind], variant: u8) -> Result<BuiltLog, String> {
+    let d = fresh_dir(scratch, "c11-build");
+    let r = build_log(&d, w, variant, true);
+    let _ = std::fs::remove_dir_all(&d);
+    r
+}
 
 fn main() {
-    let r = Report::new("C11", Level::Exploration);
-    r.machinery_error("check not implemented yet");
+    let r = Report::new("C11", Level::FaultEnumeration);
+    mc::quiet_panics();
+    walkit::syncspy::init();
+    r.rule("a case is one damaged image: (log, damage operator, position) evaluated by every reader; \
+            distinct_nontrivial counts images whose bytes differ from the original inside a committed record");
+    r.assume("logs are single-segment, 1–3 transactions, built through the real FilesystemWalStore (same builders as C10)");
+    r.assume("a success that returns the complete original history with a clean tail after bytes of a committed record changed counts as undetected damage for bit flips and zeroing; \
+              for record reordering it is counted separately (absorbed by LSN sorting), not as a violation");
+    let scratch = mc::scratch_root();
+
+    if let Some(path) = r.replay.clone() {
+        let txt = std::fs::read_to_string(&path).unwrap_or_default();
+        let v: Value = serde_json::from_str(&txt).unwrap_or(json!(null));
+        let case = v["detail"]["case"].clone();
+        let mut st = Stats::default();
+        match readers::replay(&scratch, &case, &mut st) {
+            Ok(()) => {}
+            Err(e) => r.machinery_error(&format!("replay: {e}")),
+        }
+        for v in &st.viols {
+            println!("replay: {} {}", v.0, v.1);
+        }
+        r.sample(json!({"replayed": case}));
+        r.nontrivial(b"replay-a");
+        r.nontrivial(b"replay-b");
+        st.flush(&r);
+        r.finish();
+    }
+
+    // ---- logs -------------------------------------------------------------------------------
+    let words: Vec<Vec<TxKind>> = if r.quick() { words_quick() } else { walkit::store::words_over(&KINDS, 3) };
+    let logs: Vec<(BuiltLog, BuiltLog)> = match words
+        .par_iter()
+        .map(|w| Ok((build(&scratch, w, 0)?, build(&scratch, w, 1)?)))
+        .collect::<Result<Vec<_>, String>>()
+    {
+        Ok(l) => l,
+        Err(e) => {
+            r.machinery_error(&format!("log build failed: {e}"));
+            r.finish();
+        }
+    };
+    r.counter("logs", logs.len() as u64);
+    r.counter("log_bytes_total", logs.iter().map(|l| l.0.segment.len() as u64).sum());
+
+    // ---- segment damage ----------------------------------------------------------------------
+    // quick: bit flips on every one-transaction log; zeroing and record edits on every log
+    let mut jobs: Vec<(usize, M)> = Vec::new();
+    for (i, (a, b)) in logs.iter().enumerate() {
+        let flips = r.thorough() || a.n() == 1;
+        let zero = r.thorough() || a.n() <= 2;
+        for m in enumerate_ops(a, b, flips, zero) {
+            jobs.push((i, m));
+        }
+    }
+    r.counter("segment_damage_cases", jobs.len() as u64);
+    let capped = std::sync::atomic::AtomicBool::new(false);
+    let st = jobs
+        .par_iter()
+        .fold(Stats::default, |mut st, (i, m)| {
+            if r.over_budget_frac(0.7) {
+                capped.store(true, std::sync::atomic::Ordering::Relaxed);
+                st.count("skipped_by_cap", 1);
+                return st;
+            }
+            let (a, b) = &logs[*i];
+            if let Some(img) = apply(a, b, m) {
+                eval_image(a, *i, m, &img, &mut st);
+            } else {
+                st.count("noop_damage_skipped", 1);
+            }
+            st
+        })
+        .reduce(Stats::default, Stats::merge);
+    if capped.load(std::sync::atomic::Ordering::Relaxed) {
+        r.cap_hit("segment damage: wall cap reached");
+    }
+    let oc = st.outcomes.clone();
+    st.flush(&r);
+
+    // ---- ledger and manifest tampering ---------------------------------------------------------
+    let side_logs: Vec<usize> = logs.iter().enumerate().filter(|(_, l)| r.thorough() || l.0.word() == "ST").map(|(i, _)| i).collect();
+    let mut sjobs: Vec<(usize, bool, usize, u8)> = Vec::new();
+    for i in &side_logs {
+        let a = &logs[*i].0;
+        let n = a.n();
+        for off in 0..a.ledgers[n].len() {
+            for bit in 0..8u8 {
+                sjobs.push((*i, true, off, bit));
+            }
+        }
+        if let Some(m) = &a.manifests[n] {
+            for off in 0..m.len() {
+                for bit in 0..8u8 {
+                    sjobs.push((*i, false, off, bit));
+                }
+            }
+        }
+    }
+    r.counter("side_file_damage_cases", sjobs.len() as u64);
+    let st2 = sjobs
+        .par_iter()
+        .fold(Stats::default, |mut st, (i, ledger, off, bit)| {
+            readers::eval_side_flip(&logs[*i].0, *ledger, *off, *bit, &mut st);
+            st
+        })
+        .reduce(Stats::default, Stats::merge);
+    let oc2 = st2.outcomes.clone();
+    st2.flush(&r);
+
+    // ---- vacuity guards -----------------------------------------------------------------------
+    let kinds: std::collections::BTreeSet<String> = oc
+        .keys()
+        .filter_map(|k| k.strip_prefix("err:").map(|s| s.split('@').next().unwrap_or(s).to_string()))
+        .collect();
+    r.note("typed_error_kinds", json!(kinds));
+    r.guard("typed_errors_of_at_least_3_kinds", kinds.len() >= 3);
+    let seen = |p: &str| oc.iter().any(|(k, v)| k.starts_with(p) && *v > 0);
+    r.guard("clean_prefix_outcomes_seen", seen("ok:strict-prefix"));
+    r.guard("flips_in_every_region_seen", ["frame.magic", "frame.kind", "frame.len", "frame.payload", "frame.digest", "commit.magic", "commit.kind", "commit.len", "commit.payload", "commit.digest"]
+        .iter().all(|reg| seen(&format!("region:{reg}"))));
+    r.guard("record_edits_seen", seen("op:delete") && seen("op:dup") && seen("op:swap") && seen("op:transplant") && seen("op:splice"));
+    r.guard("ledger_and_manifest_flips_seen", oc2.keys().any(|k| k.starts_with("ledger:")) && oc2.keys().any(|k| k.starts_with("manifest:")));
+    if let Some((a, _)) = logs.first() {
+        r.sample(json!({"log": a.word(), "segment_len": a.segment.len(),
+            "records": a.records.iter().map(|x| json!([x.start, x.end, x.kind])).collect::<Vec<_>>(),
+            "example_damage": {"op": "flip", "off": 20, "bit": 3}}));
+    }
     r.finish();
 }
